@@ -24,6 +24,12 @@ template <size_t K>
 using HEs = xr::hazard_eras<>::with<xp::allocation_strategy<xr::he_allocation::static_strategy<K, 0, 0>>>;
 template <size_t K>
 using HEd = xr::hazard_eras<>::with<xp::allocation_strategy<xr::he_allocation::dynamic_strategy<K, 0, 0>>>;
+// scan threshold proportional to the number of hazard pointers / eras of the threads that are alive (A = 1): the
+// backlog a lone thread may accumulate must not depend on how many threads have come and gone (C17)
+using HPs_A1 = xr::hazard_pointer<>::with<xp::allocation_strategy<xr::hp_allocation::static_strategy<3, 1, 0>>>;
+using HPd_A1 = xr::hazard_pointer<>::with<xp::allocation_strategy<xr::hp_allocation::dynamic_strategy<1, 1, 0>>>;
+using HEs_A1 = xr::hazard_eras<>::with<xp::allocation_strategy<xr::he_allocation::static_strategy<3, 1, 0>>>;
+using HEd_A1 = xr::hazard_eras<>::with<xp::allocation_strategy<xr::he_allocation::dynamic_strategy<1, 1, 0>>>;
 using QSBR = xr::quiescent_state_based;
 using EBR = xr::epoch_based<>::with<xp::scan_frequency<0>>;
 using NEBR = xr::new_epoch_based<>::with<xp::scan_frequency<0>>;
